@@ -87,16 +87,20 @@ static int env_path_ok(const char *p, bool *empty, bool *prefix_ok)
 			break;
 		}
 		{
+			/* typed access only: a pointer into g_nodes[] with a
+			 * symbolic element index and a symbolic offset reads
+			 * garbage in cbmc 6.11 (flexible array member inside
+			 * the wrapper) */
 			int a = anc_at_depth((unsigned)d);
-			const sqfs_u8 *nm = g_nodes[a].name;
 
 			if (!S_ISDIR(g_inodes[a].i.base.mode))
 				*prefix_ok = false;
 			for (k = 0; k < i - start; ++k) {
-				if ((sqfs_u8)buf[start + k] != nm[k])
+				if (*(const sqfs_u8 *)&buf[start + k] !=
+				    g_nodes[a].name[k])
 					*prefix_ok = false;
 			}
-			if (nm[i - start] != '\0')
+			if (g_nodes[a].name[i - start] != '\0')
 				*prefix_ok = false;
 		}
 		start = i + 1;
